@@ -39,6 +39,10 @@ def forms(doc, tx, rnd):
                 {"sub/inc1.jst": text_of(rng[:h] + [inc("deep/inc2.jst")]), "sub/deep/inc2.jst": text_of(rng[h:])}))
     res.append(("two_from_one_place", pre + [inc("a.jst"), inc("dir/b.jst")] + post,
                 {"a.jst": text_of(rng[:h]), "dir/b.jst": text_of(rng[h:])}))
+    # the same spelling "part.jst" used from two directories names two different files
+    a, b = max(1, len(rng) // 3), max(2, 2 * len(rng) // 3)
+    res.append(("same_name_in_two_dirs", pre + [inc("part.jst"), inc("sub/mid.jst")] + post,
+                {"part.jst": text_of(rng[:a]), "sub/mid.jst": text_of(rng[a:b] + [inc("part.jst")]), "sub/part.jst": text_of(rng[b:])}))
     res.append(("with_empty_and_comment_files", pre + [inc("e.jst"), inc("inc1.jst"), inc("c.jst")] + post,
                 {"inc1.jst": text_of(rng), "e.jst": "", "c.jst": "# only a comment\n\n"}))
     for i, b in enumerate(doc):
